@@ -5,7 +5,7 @@
    Gaussian theorems carry its derivative as a premise. *)
 From Coq Require Import Reals ZArith List Bool Lra Lia.
 From Coquelicot Require Import Coquelicot.
-From Sky Require Import Result Num NumR G_flux M_Flux S_Flux P_Flux P_FluxInt P_FluxObj P_FluxStore.
+From Sky Require Import Result Num NumR G_flux M_Flux S_Flux P_Flux P_FluxInt P_FluxObj P_FluxStore P_FluxDeep.
 Import ListNotations.
 Open Scope R_scope.
 
@@ -180,6 +180,164 @@ Theorem C13_copy_independent : forall (T : Type) (N : Num T) (s : @store T) l s'
      forall k, (length s <= k)%nat -> nth_error s'' k = nth_error s' k).
 Proof. exact @copy_independent. Qed.
 Print Assumptions C13_copy_independent.
+
+(* ================================================================ deepening *)
+(* Numerically integrated profiles (cut-off, log-parabola, function-based): the code's
+   get_integral = scipy quad applied to the profile's own __call__ (kernels gen_int_*,
+   co_int_delegate, lp_int_delegate).  Q is the quadrature ORACLE; its contract is the premise:
+   it returns the Riemann integral of an integrable integrand. *)
+Theorem C13_numeric_int : forall (erfR : R -> R) (Q : (R -> R) -> R -> R -> R),
+  (forall f a b, ex_RInt f a b -> Q f a b = RInt f a b) ->
+  (forall eu E0 g Ec E1 E2, 0 < E0 -> Ec <> 0 -> 0 < E1 <= E2 ->
+     is_RInt (e_call (RNum erfR) (Cutoff eu E0 g Ec) None) E1 E2
+             (e_int_q (RNum erfR) Q (Cutoff eu E0 g Ec) None E1 E2))
+  /\ (forall eu E0 a b E1 E2, 0 < E0 -> 0 < E1 <= E2 ->
+     is_RInt (e_call (RNum erfR) (LogPar eu E0 a b) None) E1 E2
+             (e_int_q (RNum erfR) Q (LogPar eu E0 a b) None E1 E2))
+  /\ (forall eu (f : R -> R) E1 E2, E1 <= E2 -> (forall x, E1 <= x <= E2 -> continuous f x) ->
+     is_RInt (e_call (RNum erfR) (FuncE eu f) None) E1 E2
+             (e_int_q (RNum erfR) Q (FuncE eu f) None E1 E2)).
+Proof.
+  intros erfR Q HQ.
+  exact (conj (cutoff_is_RInt erfR Q HQ) (conj (logpar_is_RInt erfR Q HQ) (func_is_RInt erfR Q HQ))).
+Qed.
+Print Assumptions C13_numeric_int.
+
+Theorem C13_numeric_additive : forall (erfR : R -> R) (Q : (R -> R) -> R -> R -> R),
+  (forall f a b, ex_RInt f a b -> Q f a b = RInt f a b) ->
+  (forall eu E0 g Ec a b c, 0 < E0 -> Ec <> 0 -> 0 < a -> a <= b <= c ->
+     e_int_q (RNum erfR) Q (Cutoff eu E0 g Ec) None a b + e_int_q (RNum erfR) Q (Cutoff eu E0 g Ec) None b c
+       = e_int_q (RNum erfR) Q (Cutoff eu E0 g Ec) None a c)
+  /\ (forall eu E0 al be a b c, 0 < E0 -> 0 < a -> a <= b <= c ->
+     e_int_q (RNum erfR) Q (LogPar eu E0 al be) None a b + e_int_q (RNum erfR) Q (LogPar eu E0 al be) None b c
+       = e_int_q (RNum erfR) Q (LogPar eu E0 al be) None a c)
+  /\ (forall eu (f : R -> R) a b c, a <= b <= c -> (forall x, a <= x <= c -> continuous f x) ->
+     e_int_q (RNum erfR) Q (FuncE eu f) None a b + e_int_q (RNum erfR) Q (FuncE eu f) None b c
+       = e_int_q (RNum erfR) Q (FuncE eu f) None a c).
+Proof. exact numeric_additive. Qed.
+Print Assumptions C13_numeric_additive.
+
+(* every argument is converted to the profile's unit exactly once on every path (values of all
+   energy / time profiles, integrals of all energy profiles incl. the quadrature ones; no
+   premise on Q), and the own-unit values are the documented formulas *)
+Theorem C13_convert_once : forall (erfR : R -> R) (Q : (R -> R) -> R -> R -> R),
+  (forall p unit E, e_call (RNum erfR) p unit E =
+     e_call (RNum erfR) p None
+       (match unit with None => E
+        | Some u => if (u =? e_unit p)%Z then E else E * (IZR (efac u) / IZR (efac (e_unit p))) end))
+  /\ (forall p unit t, t_call (RNum erfR) p unit t =
+     t_call (RNum erfR) p None
+       (match unit with None => t
+        | Some u => if (u =? t_unit p)%Z then t else t * (IZR (tfac u) / IZR (tfac (t_unit p))) end))
+  /\ (forall p unit a b, e_int_q (RNum erfR) Q p unit a b =
+     e_int_q (RNum erfR) Q p None
+       (match unit with None => a
+        | Some u => if (u =? e_unit p)%Z then a else a * (IZR (efac u) / IZR (efac (e_unit p))) end)
+       (match unit with None => b
+        | Some u => if (u =? e_unit p)%Z then b else b * (IZR (efac u) / IZR (efac (e_unit p))) end))
+  /\ (forall p u w a b, e_int_q (RNum erfR) Q p (Some u) a b =
+     e_int_q (RNum erfR) Q p (Some w) (a * IZR (efac u) / IZR (efac w)) (b * IZR (efac u) / IZR (efac w)))
+  /\ (forall p E, e_call (RNum erfR) p None E =
+      match p with
+      | UnityE _ => 1
+      | PowerLaw _ E0 g => Rpower (E / E0) (- g)
+      | Cutoff _ E0 g Ec => Rpower (E / E0) (- g) * exp (- E / Ec)
+      | LogPar _ E0 a b => Rpower (E / E0) (- a - b * ln (E / E0))
+      | FuncE _ f => f E
+      end).
+Proof.
+  intros erfR Q.
+  exact (conj (e_call_once erfR) (conj (t_call_once erfR) (conj (e_int_q_once erfR Q)
+        (conj (e_int_q_units erfR Q) (e_call_value erfR))))).
+Qed.
+Print Assumptions C13_convert_once.
+
+(* the unit factor table: identity, composition along conversions, inverse pairs, positivity;
+   to_internal_flux_unit composes with it *)
+Theorem C13_unit_table : forall (erfR : R -> R),
+  (forall fac, (forall v, 0 < IZR (fac v)) ->
+     (forall u, conv (RNum erfR) fac u u = 1)
+     /\ (forall u v w, conv (RNum erfR) fac u v * conv (RNum erfR) fac v w = conv (RNum erfR) fac u w)
+     /\ (forall u v, conv (RNum erfR) fac u v * conv (RNum erfR) fac v u = 1)
+     /\ (forall u v, 0 < conv (RNum erfR) fac u v))
+  /\ (forall v, 0 < IZR (efac v)) /\ (forall v, 0 < IZR (tfac v))
+  /\ to_internal (RNum erfR) 0 0 = 1
+  /\ (forall eu tu, to_internal (RNum erfR) eu tu * (conv (RNum erfR) efac eu 0 * conv (RNum erfR) tfac tu 0) = 1)
+  /\ (forall eu tu eu' tu', to_internal (RNum erfR) eu tu
+        = to_internal (RNum erfR) eu' tu' * (conv (RNum erfR) efac eu' eu * conv (RNum erfR) tfac tu' tu)).
+Proof.
+  intros erfR.
+  exact (conj (conv_table erfR) (conj (efac_pos) (conj (tfac_pos) (to_internal_spec erfR)))).
+Qed.
+Print Assumptions C13_unit_table.
+
+(* box: update = construct for EVERY history, the raw t_start / t_stop setters included (no guard) *)
+Theorem C13_update_box_full : forall (erfR : R -> R) ops tu t0 tw,
+  t_run (RNum erfR) ops (box_new (RNum erfR) tu t0 tw) =
+    box_new (RNum erfR) tu (fst (fold_left (box_spec_full tu) ops (t0, tw)))
+                           (snd (fold_left (box_spec_full tu) ops (t0, tw))).
+Proof. exact box_update_full. Qed.
+Print Assumptions C13_update_box_full.
+
+(* Gaussian: the guard of C13_update_gauss is needed — after a raw t_start write the object is
+   one that no constructor call produces (window no longer t0 -+ d(sigma_t, tol)) *)
+Theorem C13_update_gauss_raw_refuted : forall (erfR : R -> R),
+  exists tu t0 sg tol v, forall t0' sg',
+    t_apply (RNum erfR) (gauss_new (RNum erfR) tu t0 sg tol) (TSetAttr nTstart v)
+      <> gauss_new (RNum erfR) tu t0' sg' tol.
+Proof. exact gauss_raw_refuted. Qed.
+Print Assumptions C13_update_gauss_raw_refuted.
+
+(* FluxModel.__call__ on array arguments: shape (Ncoord, Nenergy, Ntime) and every element is
+   Phi0 * S[i] * E[j] * T[k]; an absent argument contributes the one-element array [1] *)
+Theorem C13_product_array : forall (erfR : R -> R) s l Phi0 ls le lt sp ep tp rd E t eu tu,
+  nth_error s l = Some (OM Phi0 ls le lt) ->
+  get_s s ls = Ok sp -> get_e s le = Ok ep -> get_t s lt = Ok tp ->
+  let sv := match rd with Some xs => map (fun x => s_call (RNum erfR) sp (fst x) (snd x)) xs | None => [1] end in
+  let ev := match E with Some xs => map (e_call (RNum erfR) ep eu) xs | None => [1] end in
+  let tv := match t with Some xs => map (t_call (RNum erfR) tp tu) xs | None => [1] end in
+  exists r, ffm_call_arr (RNum erfR) s l rd E t eu tu = Ok r
+    /\ length r = length sv
+    /\ (forall row, In row r -> length row = length ev /\ forall col, In col row -> length col = length tv)
+    /\ (forall i j k a b c, nth_error sv i = Some a -> nth_error ev j = Some b -> nth_error tv k = Some c ->
+          exists row col, nth_error r i = Some row /\ nth_error row j = Some col
+                          /\ nth_error col k = Some (Phi0 * a * b * c)).
+Proof. exact ffm_array. Qed.
+Print Assumptions C13_product_array.
+
+(* cdf of the box profile: in [0,1], monotone, 0 at t_start, 1 at t_stop, and
+   cdf * get_total_integral = get_integral(t_start, t) *)
+Theorem C13_cdf_box : forall (erfR : R -> R) tu ts te, ts < te ->
+  (forall t, 0 <= box_cdf (RNum erfR) tu ts te None t <= 1)
+  /\ (forall t t', t <= t' -> box_cdf (RNum erfR) tu ts te None t <= box_cdf (RNum erfR) tu ts te None t')
+  /\ box_cdf (RNum erfR) tu ts te None ts = 0
+  /\ box_cdf (RNum erfR) tu ts te None te = 1
+  /\ (forall t, ts <= t <= te ->
+        box_cdf (RNum erfR) tu ts te None t * t_total (RNum erfR) (Box tu ts te)
+          = t_int (RNum erfR) (Box tu ts te) None ts t).
+Proof. exact box_cdf_props. Qed.
+Print Assumptions C13_cdf_box.
+
+(* the same for the Gaussian (erf' premise): total integral positive, cdf in [0,1], monotone,
+   cdf(t_start) = 0, cdf(t_stop) = 1 — never above 1 *)
+Theorem C13_cdf_gauss : forall (erfR : R -> R),
+  (forall x, is_derive erfR x (2 / sqrt PI * exp (- (x * x)))) ->
+  forall tu ts te sg tol, 0 < sg -> ts < te ->
+  0 < t_total (RNum erfR) (Gauss tu ts te sg tol)
+  /\ (forall t, 0 <= gauss_cdf (RNum erfR) tu ts te sg tol None t <= 1)
+  /\ (forall t t', t <= t' -> gauss_cdf (RNum erfR) tu ts te sg tol None t <= gauss_cdf (RNum erfR) tu ts te sg tol None t')
+  /\ gauss_cdf (RNum erfR) tu ts te sg tol None ts = 0
+  /\ gauss_cdf (RNum erfR) tu ts te sg tol None te = 1
+  /\ (forall t, ts <= t <= te ->
+        gauss_cdf (RNum erfR) tu ts te sg tol None t * t_total (RNum erfR) (Gauss tu ts te sg tol)
+          = t_int (RNum erfR) (Gauss tu ts te sg tol) None ts t).
+Proof. exact gauss_cdf_props. Qed.
+Print Assumptions C13_cdf_gauss.
+
+(* the quadrature contract is satisfiable (RInt itself), the cut-off guards are satisfiable *)
+Example C13_nonvacuous_oracle :
+  (forall (f : R -> R) a b, ex_RInt f a b -> RInt f a b = RInt f a b) /\ 0 < 1 /\ 10 <> 0 /\ 0 < 1 <= 100.
+Proof. split; [reflexivity|lra]. Qed.
 
 (* ---------------------------------------------------------------- non-vacuity *)
 Example C13_nonvacuous_reals :
